@@ -70,10 +70,6 @@ def encOutDigestPair : Out (List UInt8 × List UInt8) → String
   | .error .fail => "ERR"
   | .error .panic => "PANIC"
 
-def decNat? (x : Sexp) : Option Nat := do
-  let i ← decInt? x
-  if i < 0 then none else pure i.toNat
-
 /-- `f` applied to this side's own `NewOrigin(gen n k s)` -/
 def withBlock (n k s : Sexp) (f : Nat → List UInt8 → String) : Option String := do
   let n ← decNat? n
